@@ -122,7 +122,8 @@ def gen_case(prop, seed, tier):
     nthreads = sw.choice([1, 2, 2, 3, 3])
     threads = []
     for t in range(nthreads):
-        qs = [{"q": sw.randrange(len(pool)), "via": sw.choice(["search", "search", "call"])} for _ in range(sw.randint(1, 4))]
+        vias = ["search", "search", "call"] + (["contract", "contract"] if kind.startswith("preset:") else [])
+        qs = [{"q": sw.randrange(len(pool)), "via": sw.choice(vias)} for _ in range(sw.randint(1, 4))]
         threads.append({"queries": qs, "start_after": None, "ident": 1000 + t})
     # ident reuse: a late thread that starts after another exited and inherits its ident
     if nthreads >= 2 and sw.random() < 0.4:
@@ -248,7 +249,12 @@ def run_case(prop, case):
                         output = tuple(q["output"])
                         size_dict = dict(q["size_dict"])
                         try:
-                            if isinstance(shared, str):
+                            if qq["via"] == "contract" and (not isinstance(shared, str) or netgen.index_space(size_dict) > 2 ** 14):
+                                qq = dict(qq, via="search")
+                            if qq["via"] == "contract":
+                                arrays = netgen.make_arrays(inputs, size_dict, prng.H(case["seed"], "arr", ti, k) % (2 ** 31))
+                                ans = ("value", ctg.array_contract(arrays, inputs, output, optimize=shared, canonicalize=bool(k % 2)), arrays)
+                            elif isinstance(shared, str):
                                 if qq["via"] == "search":
                                     ans = ctg.array_contract_tree(inputs, output, size_dict, optimize=shared, canonicalize=False)
                                 else:
@@ -262,7 +268,7 @@ def run_case(prop, case):
                             raise
                         except Exception as e:
                             ans = e
-                        answers.append((ti, k, qq["q"] % len(pool), qq["via"], ans))
+                        answers.append((ti, k, qq["q"] % len(pool), qq["via"] if not (isinstance(ans, tuple) and len(ans) == 3 and ans[0] == "value") else "contract", ans))
                 return fn
 
             fns = [body(ti, th) for ti, th in enumerate(case["threads"])]
@@ -288,6 +294,25 @@ def run_case(prop, case):
             violations.append({"oracle": "query-raised",
                                "detail": f"thread {ti} query {k} ({via}, contraction #{qi}, {len(q['inputs'])} tensors) raised {type(ans).__name__}: {ans}",
                                "sig": {"kind": kind, "via": via, "error": type(ans).__name__, "threads": len(case["threads"])}})
+            continue
+        if via == "contract":
+            import numpy as np
+
+            _, got, arrays = ans
+            ref = netgen.reference(q["inputs"], q["output"], arrays)
+            scale = netgen.reference_abs(q["inputs"], q["output"], arrays)
+            got = np.asarray(got)
+            why = None
+            if got.shape != ref.shape:
+                why = f"array_contract returned shape {got.shape}, the query's einsum has {ref.shape}"
+            elif not np.all(np.abs(got - ref) <= 1e-9 * scale + 1e-300):
+                why = f"array_contract returned another contraction's value (max err {float(np.abs(got - ref).max()):.3e})"
+            counters["probe:contract_through_interface_caches"] += 1
+            if why:
+                violations.append({"oracle": "answer-belongs-to-another-query",
+                                   "detail": f"thread {ti} query {k} (contract, contraction #{qi}): {why}",
+                                   "sig": {"kind": kind, "via": via, "threads": len(case["threads"]), "sequential": sched.switches == 0}})
+            log.add("ans", ti, k, qi, via, list(got.shape))
             continue
         why = _check_answer(via, ans, q)
         if why:
